@@ -66,7 +66,7 @@ def run_compose(sd, vecs, reps):
 
 
 def run_reduce(sd, vecs):
-    inp = [{'id': i, 'sh': v['sh'], 'site': v['site'], 'ref': v['ref']} for i, v in enumerate(vecs)]
+    inp = [{'id': i, 'sh': v['sh'], 'site': v['site'], 'ref': v['ref'], 'sp': v.get('sp', {})} for i, v in enumerate(vecs)]
     vplib.write_jsonl(os.path.join(sd, 'rin.jsonl'), inp)
     vplib.run_harness(['scope-reduce', os.path.join(sd, 'rin.jsonl'), os.path.join(sd, 'rout.jsonl')], timeout=3000)
     return vplib.read_jsonl(os.path.join(sd, 'rout.jsonl'))
